@@ -345,6 +345,54 @@ pub fn check_sensitivity(spec: &Spec, st: &mut Stats) {
             }
         }
     }
+    let mut tried_batch = 0u64;
+    // the batch forms: flipping the kind of one edge must give an unequal graph there as well, and
+    // a graph built through the batch forms must equal the one built call by call
+    if !spec.edges.is_empty() {
+        let build_batch = |m: &Spec| {
+            catch_quiet(|| {
+                let mut b = FnGraphBuilder::new();
+                let ids: Vec<FnId> = (0..m.n).map(|i| b.add_fn(Node::new(i, m.acc(i).to_vec()))).collect();
+                // consecutive edges of the same kind go into one batch of up to 3
+                let mut i = 0;
+                while i < m.edges.len() {
+                    let c = m.edges[i].2;
+                    let mut j = i;
+                    while j < m.edges.len() && j < i + 3 && m.edges[j].2 == c {
+                        j += 1;
+                    }
+                    let e: Vec<(FnId, FnId)> = m.edges[i..j].iter().map(|e| (ids[e.0], ids[e.1])).collect();
+                    let r = match (e.len(), c) {
+                        (1, false) => b.add_logic_edges([e[0]]).map(|_| ()),
+                        (1, true) => b.add_contains_edges([e[0]]).map(|_| ()),
+                        (2, false) => b.add_logic_edges([e[0], e[1]]).map(|_| ()),
+                        (2, true) => b.add_contains_edges([e[0], e[1]]).map(|_| ()),
+                        (_, false) => b.add_logic_edges([e[0], e[1], e[2]]).map(|_| ()),
+                        (_, true) => b.add_contains_edges([e[0], e[1], e[2]]).map(|_| ()),
+                    };
+                    r.expect("acyclic");
+                    i = j;
+                }
+                b.build()
+            })
+        };
+        if let Ok(gb) = build_batch(spec) {
+            tried_batch += 1;
+            if !(gb == g) {
+                bviol(st, 12, spec, what, "the graph built through add_logic_edges / add_contains_edges differs from the one built with add_logic_edge / add_contains_edge".into());
+            }
+            for k in 0..spec.edges.len() {
+                let mut m = spec.clone();
+                m.edges[k].2 = !m.edges[k].2;
+                if let Ok(g2) = build_batch(&m) {
+                    tried_batch += 1;
+                    if gb == g2 {
+                        bviol(st, 12, spec, what, format!("batch forms: kind of edge {k} flipped, the graphs compare equal"));
+                    }
+                }
+            }
+        }
+    }
     // change one edge kind / endpoint
     for k in 0..spec.edges.len() {
         let mut m = spec.clone();
@@ -370,6 +418,7 @@ pub fn check_sensitivity(spec: &Spec, st: &mut Stats) {
             }
         }
     }
+    let tried = tried + tried_batch;
     st.execs += tried;
     st.transitions += tried;
     st.count("mutated_call_sequences_compared", tried);
@@ -696,7 +745,7 @@ fn kind_variants(n: usize, e: &[(usize, usize)], max_all: usize) -> Vec<Spec> {
     };
     masks
         .into_iter()
-        .map(|mask| Spec { n, edges: e.iter().enumerate().map(|(k, &(a, b))| (a, b, mask >> k & 1 == 1)).collect(), decl: vec![] })
+        .map(|mask| Spec { n, edges: e.iter().enumerate().map(|(k, &(a, b))| (a, b, mask >> k & 1 == 1)).collect(), decl: vec![], redeclare: 0 })
         .collect()
 }
 
@@ -1074,7 +1123,7 @@ impl RefBuilder {
 
 fn c16_eval(n: usize, calls: &[Call], batch: usize, st: &mut Stats) {
     // batch = 0: single calls; batch = N: calls grouped into add_*_edges::<N> where the kinds agree
-    let spec = Spec { n, edges: calls.iter().map(|c| (c.from, c.to, c.contains)).collect(), decl: vec![] };
+    let spec = Spec { n, edges: calls.iter().map(|c| (c.from, c.to, c.contains)).collect(), decl: vec![], redeclare: 0 };
     let what = if batch == 0 { "call_sequence".to_string() } else { format!("call_sequence_batch{batch}") };
     let r = catch_quiet(|| {
         let mut b = FnGraphBuilder::new();
@@ -1306,12 +1355,12 @@ pub fn run_c16_probe(n: usize, depth: usize, deadline: Instant, total: &mut Stat
                     match got {
                         Ok((last, all_ok)) => {
                             if last != want || !all_ok {
-                                let spec = Spec { n: cx.n, edges: seq.iter().map(|&(x, y)| (x, y, false)).collect(), decl: vec![] };
+                                let spec = Spec { n: cx.n, edges: seq.iter().map(|&(x, y)| (x, y, false)).collect(), decl: vec![], redeclare: 0 };
                                 bviol(local, 16, &spec, "call_sequence", format!("after {} accepted edges the call {a}->{b} returned {}, reference {} (earlier calls all accepted: {all_ok})", seq.len() - 1, if last { "Ok" } else { "WouldCycle" }, if want { "Ok" } else { "WouldCycle" }));
                             }
                         }
                         Err(m) => {
-                            let spec = Spec { n: cx.n, edges: seq.iter().map(|&(x, y)| (x, y, false)).collect(), decl: vec![] };
+                            let spec = Spec { n: cx.n, edges: seq.iter().map(|&(x, y)| (x, y, false)).collect(), decl: vec![], redeclare: 0 };
                             bviol(local, 16, &spec, "call_sequence", format!("builder panicked: {m}"));
                         }
                     }
